@@ -6,13 +6,13 @@ import codec
 META = {
     "property_id": "C20",
     "engine": "lean-wire-codec",
-    "technique": "Lean 4: totality + allocation-bound theorem for the model of the reflection decoder on ARBITRARY bytes (outcomes ok/error/panic/balloon), by mutual induction over all schema types incl. tagged fields; the 'lengths are checked against decoder.remain before allocating' fact is re-extracted from decode.go/response.go/request.go on every run and the theorem is instantiated at it; counterexample theorems for the unchecked decoder; model<->code correspondence of the outcome class on systematically mutated frames decoded in a memory-limited child process",
+    "technique": "Lean 4: totality + allocation-bound theorem for the model of the reflection decoder on ARBITRARY bytes (outcomes ok/error/panic/balloon), by mutual induction over all schema types incl. tagged fields, extended by a model of RecordSet.ReadFrom / readFromVersion1 / readFromVersion2 (nested remains, message sizes, batchLength, numRecords, record/key/value/header varints) plugged into the frame decoder; the 'lengths are checked against decoder.remain before allocating' facts (G1-G5 in decode.go/response.go/request.go, 7 record-set guards in record*.go) are re-extracted on every run and the theorems are instantiated at them; exact-frame-accounting theorem (one frame consumed whatever the fields say); counterexample theorems for the unchecked decoder; model<->code correspondence of the outcome class on systematically mutated frames decoded in a memory-limited child process",
     "level_claimed": {
         "category": "proof",
-        "text": "Kernel-checked: for every schema type, every input byte string and every frame size, ReadResponse/decode of the bounded decoder returns a message or an error - no panic outcome and no allocation request larger than the bytes left in the frame (decode_total_bounded, readResponse_total_bounded), instantiated at the decoder configuration extracted from the current source. Tied to the code by the extracted guard facts and by decoding ~20k (quick) mutated frames of every response type x version in a child process (ulimit -v, GOMEMLIMIT, timeout) and comparing the outcome class and measured allocation with the model.",
+        "text": "Kernel-checked: for every schema type, every input byte string and every frame size, ReadResponse/decode of the bounded decoder returns a message or an error - no panic outcome and no allocation request larger than the bytes left in the frame (decode_total_bounded, readResponse_total_bounded, readRequest_total_bounded, readResponse_total_with_records, readResponse_consumes_frame_with_records), instantiated at the decoder configuration extracted from the current source. Tied to the code by the extracted guard facts and by decoding ~20k (quick) mutated frames of every response type x version in a child process (ulimit -v, GOMEMLIMIT, timeout) and comparing the outcome class and measured allocation with the model.",
         "design_ref": "DESIGN.md §7 C20",
     },
-    "level_note": "Trusted: Lean kernel + standard axioms; the syntactic guard extractor (go/ast patterns G1-G5); the child-process harness. The bound is in terms of the bytes ANNOUNCED by the frame size and not yet consumed (= bytes received when the frame is complete); a frame whose size prefix itself lies can still request up to that size. RecordSet payload internals (record_v1/v2 lengths) are outside this model (C05/C17). CPU time is not modelled (sticky-error short-circuit); hangs are observed by the harness only.",
+    "level_note": "Trusted: Lean kernel + standard axioms; the syntactic guard extractors (go/ast patterns G1-G5, 7 record-set guard patterns); the child-process harness. The bound is in terms of the bytes ANNOUNCED by the frame size and not yet consumed (= bytes received when the frame is complete); a frame whose size prefix itself lies can still request up to that size. Decompression and CRC are parameters of the record-set model (any function): what a codec allocates while inflating is C16's. CPU time is not modelled (sticky-error short-circuit); hangs are observed by the harness only.",
 }
 
 MODULE = "KafkaVerif.Props.C20"
@@ -22,7 +22,7 @@ def run(ctx, variants=(("verif", "c04"), ("verif,unsafe", "c04u"))):
     ctx.assumptions += [
         "allocation bound: every make()/makeArray request <= decoder.remain at that moment (c = 1 element or byte per remaining frame byte, k = 0); a Go element is at most a constant number of bytes per schema (harness threshold 256 B per frame byte + 1 MiB)",
         "remain is the announced frame size minus what was consumed: equals bytes received when the frame is complete",
-        "RecordSet payload insides are opaque (C05/C17)",
+        "CRC and decompression are arbitrary functions in the record-set model (theorems hold for all of them); the oracle runs with the real CRCs and no decompressor (generated cases are uncompressed)",
         "after the first decoder error nothing more is allocated (sticky error: every later read returns 0) - modelled by short-circuit, sampled by the correspondence",
     ]
     broken = []
